@@ -253,6 +253,7 @@ fn serialise(kawa: &mut K, back: i128, request: bool) -> Result<Fwd, String> {
             incremental_mode: false,
             incremental_peer_count: 0,
             pending_table_size_update: None,
+            pending_table_size_min: None,
             size_update_emitted: false,
             pending_oversized_abort: false,
         };
